@@ -54,7 +54,7 @@ class Builder:
 
     def __init__(self, prog: Program | None, func: Func | None, env=None, facts=None, *,
                  positive=DEFAULT_POSITIVE, erase_casts=True, inline_depth=3, self_prefix="self",
-                 inline_filter=None, erase_layout=False, erase_validation=False, keep_raises=False, track_locals=False, track_effects=False, summarise_loops=False, erase_persistence=False):
+                 inline_filter=None, erase_layout=False, erase_validation=False, keep_raises=False, track_locals=False, track_effects=False, summarise_loops=False, erase_persistence=False, inline_new=0):
         self.prog, self.func = prog, func
         self.env = dict(env or {})
         self.facts = facts or Facts()
@@ -65,6 +65,7 @@ class Builder:
         self.erase_layout = erase_layout
         self.erase_validation = erase_validation   # argtest.<check>(name, value, ...) -> value (validators return their value)
         self.keep_raises = keep_raises     # a `raise X(...)` is the value raise(X) (a leaf of the decision tree), not bottom
+        self.inline_new = inline_new     # depth to which helpers that the reference tree does not have are inlined (value and effects)
         self.erase_persistence = erase_persistence  # whether a value is stored as a persisted extra / buffer or as a plain attribute is not compared
         self.summarise_loops = summarise_loops  # a loop is the term loop(iterable, what one iteration computes / stores / calls) instead of an opaque region
         self.track_effects = track_effects  # calls evaluated as statements are appended to the pseudo-store "!effects" (ordered, path-sensitive)
@@ -77,7 +78,7 @@ class Builder:
                     positive=self.positive, erase_casts=self.erase_casts, inline_depth=self.inline_depth,
                     inline_filter=self.inline_filter, erase_layout=self.erase_layout, erase_validation=self.erase_validation,
                     keep_raises=self.keep_raises, track_locals=self.track_locals, track_effects=self.track_effects,
-                    summarise_loops=self.summarise_loops, erase_persistence=self.erase_persistence)
+                    summarise_loops=self.summarise_loops, erase_persistence=self.erase_persistence, inline_new=self.inline_new)
         b.stores = dict(self.stores)
         return b
 
@@ -306,6 +307,13 @@ class Builder:
             fv = self.env[f.id]
             return self._apply_value(fv, args, kws)
 
+        # -- helpers introduced by a refactoring (absent from the reference tree): their body is the caller's behaviour
+        if self.prog is not None and self.func is not None and self.inline_new > 0 and not star:
+            r = self.prog.resolve_call(self.func, e)
+            if r is not None and r[0].kind not in ("getter", "setter", "deleter") and _is_new(r[0]):
+                res = self._inline_new(r[0], r[1], recv, args, kws)
+                if res is not None:
+                    return res
         # -- repo callee inlining -------------------------------------------------
         if self.prog is not None and self.func is not None and self.inline_depth > 0 and not star:
             r = self.prog.resolve_call(self.func, e)
@@ -336,6 +344,56 @@ class Builder:
             return self._builtin(at.args[0], False, list(args), kws, None)
         kwt = tuple((k, v) for k, v in sorted(kws.items()))
         return app("call", fv, *args, ("kw",) + kwt) if kwt else app("call", fv, *args)
+
+    def _inline_new(self, callee: Func, bound: bool, recv, args, kws):
+        """Run a new helper's body in place: its stores and effects become the caller's, its return value the call's value."""
+        a = callee.node.args
+        names = [x.arg for x in a.posonlyargs + a.args]
+        env = {}
+        pos = list(args)
+        if callee.cls is not None and callee.kind != "static" and bound:
+            env[names[0]] = recv if recv is not None else sym("self")
+            names = names[1:]
+        if len(pos) > len(names) or a.vararg or a.kwarg:
+            return None
+        for n, v in zip(names, pos):
+            env[n] = v
+        defaults = dict(zip([x.arg for x in (a.posonlyargs + a.args)][-len(a.defaults):] if a.defaults else [], a.defaults))
+        kwdefaults = {x.arg: d for x, d in zip(a.kwonlyargs, a.kw_defaults)}
+        for k, v in kws.items():
+            if k in names or k in kwdefaults:
+                env[k] = v
+            else:
+                return None
+        sub = self.child({})
+        sub.func = callee
+        sub.inline_new = self.inline_new - 1
+        for n in names[len(pos):]:
+            if n not in env:
+                if n not in defaults:
+                    return None
+                env[n] = sub.t(defaults[n])
+        for n, d in kwdefaults.items():
+            if n not in env:
+                if d is None:
+                    return None
+                env[n] = sub.t(d)
+        # the helper sees the caller's view of `self.<attr>` stores made so far
+        for k, v in self.env.items():
+            if "." in k and k not in env:
+                env[k] = v
+        sub.env = env
+        try:
+            r = sub.run(strip_doc(callee.node.body))
+        except Opaque:
+            return None
+        if r is BOTTOM:
+            return None
+        self.stores = sub.stores
+        for k, v in sub.env.items():
+            if "." in k:
+                self.env[k] = v
+        return r if r is not None else app("const", "None")
 
     def _inline(self, callee: Func, bound: bool, recv, args, kws):
         if not simple_function(callee.node) or callee.node.decorator_list:
@@ -593,6 +651,15 @@ class Builder:
                     if d is not None:
                         self.env[d] = app("inplace", c.func.attr, self.t(c.func.value), *[self.t(a) for a in c.args])
                 self.effects.append(("call", c))
+                if self.inline_new > 0 and self.prog is not None and self.func is not None:
+                    r_ = self.prog.resolve_call(self.func, c)
+                    if r_ is not None and _is_new(r_[0]) and not any(isinstance(x, ast.Starred) for x in c.args):
+                        before = dict(self.stores)
+                        try:
+                            self.t(c)
+                            return
+                        except Opaque:
+                            self.stores = before
                 if self.track_effects:
                     save, self.inline_depth = self.inline_depth, 0     # the call itself is the effect: keep it opaque
                     try:
@@ -704,6 +771,11 @@ class Builder:
                     self.stores[d + "[]"] = nv
         elif isinstance(tgt, ast.Starred):
             self.assign(tgt.value, app("starred", v))
+
+
+def _is_new(callee: Func) -> bool:
+    from . import alpha
+    return not alpha.is_reference_function(callee.module.rel, callee.cls.name if callee.cls else None, callee.name)
 
 
 def _match_to_if(st: ast.Match):
